@@ -5,13 +5,19 @@
    the one the model predicts (the guard's semantics, per run), resp. the
    replicate start states are threaded as [replications] says.
    [holds]: the property - same seed => identical outputs whatever the
-   history; replicate columns are not copies of each other. *)
-From HV Require Import Prelude C10_Model.
+   history; replicate columns are not copies of each other; every replicate
+   column is the run's one genetic component plus the noise vector drawn for
+   THAT replicate (relation `replicates`, on the float values). *)
+From HV Require Import Prelude Stats C10_Model.
+From Coq Require Import PrimFloat Uint63 FloatOps SpecFloat.
+Open Scope Z_scope.
 
 (* ---------------- simgenotype *)
 Record grun := mkgrun {
   r_pre : Z;          (* global generator state when the run was entered *)
   r_start : Z;        (* global generator state at the run's first draw *)
+  r_trace : Z;        (* the whole sequence (np.random function, global state before the call) of the run's draws and re-seedings *)
+  r_end : Z;          (* global generator state when the run returned *)
   r_out : list Z      (* outputs: .bp bytes, genotype content (+ annotations) *)
 }.
 Record gcase := mkg {
@@ -33,8 +39,17 @@ Definition holds_genotype (c : gcase) : bool :=
   | None => true
   end.
 
+(* a seeded run is [run (P i) (reseed k)]: every draw is made from the same state in
+   both runs and the same state is left behind (C10_trace_history_independent) *)
+Definition same_draws (c : gcase) : bool :=
+  match g_seed c with
+  | Some _ => (r_trace (g_a c) =? r_trace (g_b c)) && (r_end (g_a c) =? r_end (g_b c))
+  | None => true
+  end.
+
 Definition check_genotype (c : gcase) : bool * bool :=
-  ((model_start c (g_a c) =? r_start (g_a c)) && (model_start c (g_b c) =? r_start (g_b c)),
+  ((model_start c (g_a c) =? r_start (g_a c)) && (model_start c (g_b c) =? r_start (g_b c))
+   && same_draws c,
    holds_genotype c).
 
 (* ---------------- simphenotype *)
@@ -84,3 +99,113 @@ Definition holds_phenotype (c : pcase) : bool :=
 Definition check_phenotype (c : pcase) : bool * bool :=
   (agree_prun (p_seed c) (p_ref c) (p_a c) && agree_prun (p_seed c) (p_ref c) (p_b c),
    holds_phenotype c).
+
+(* ---------------- the replicates of one simphenotype run, on the values.
+   The public rng of the simulator is wrapped by a recorder; a second run of the same
+   command with the noise forced to zero (no prevalence, one replicate) yields the
+   genetic component. *)
+Record rrep := mkrrep {
+  rr_scale : float;            (* scale handed to rng.normal in this replicate *)
+  rr_noise : list float;       (* the vector rng.normal returned in this replicate *)
+  rr_ref : list float;         (* the k-th consecutive normal(0, scale_k, n) of a COPY of the simulator's
+                                  generator taken right after construction *)
+  rr_col : list float          (* replicate column k of the written .pheno *)
+}.
+Record repcase := mkrc {
+  rc_R : Z;                    (* requested number of replications *)
+  rc_cc : bool;                (* prevalence given: columns are 1.0 / 0.0 *)
+  rc_g : list float;           (* genetic component *)
+  rc_end_same : bool;          (* the simulator's generator ended in the state the copy ended in *)
+  rc_reps : res (list rrep)
+}.
+
+Definition fl_eqb := list_eqb fsame.
+Definition is_one (x : float) : bool := PrimFloat.eqb x 1%float.
+
+(* the property is evaluated on the exact rational values of the floats *)
+Record qrep := mkq {
+  q_noisy : bool;              (* scale finite and > 0, at least two samples *)
+  q_noise : list Q;
+  q_col : list Q
+}.
+Definition noisy (r : rrep) : bool :=
+  ffinite (rr_scale r) && negb (Qle_bool (f2q0 (rr_scale r)) 0) && (2 <=? lenZ (rr_noise r))
+  && forallb ffinite (rr_noise r).
+Definition to_q (r : rrep) : qrep := mkq (noisy r) (map f2q0 (rr_noise r)) (map f2q0 (rr_col r)).
+
+Definition ql_eqb := list_eqb Qeq_bool.
+
+(* c - e is the same vector for both replicates (float rounding of the two sums allowed) *)
+Definition same_component (a b : qrep) : bool :=
+  Nat.eqb (length (q_col a)) (length (q_noise a))
+  && Nat.eqb (length (q_col b)) (length (q_noise b))
+  && Nat.eqb (length (q_col a)) (length (q_col b))
+  && forallb (fun '((ca, ea), (cb, eb)) =>
+        qclose tol9 (Qabs ca + Qabs ea + Qabs cb + Qabs eb) (ca - ea) (cb - eb))
+       (combine (combine (q_col a) (q_noise a)) (combine (q_col b) (q_noise b))).
+
+(* case/control: the cases (column value 1) are a top set of g + (the noise of THIS replicate);
+   rows = (is case, (liability, slack)) *)
+Definition liab_rows (g : list Q) (r : qrep) : list (bool * (Q * Q)) :=
+  map (fun '((gi, ei), ci) => (Qeq_bool ci 1, ((gi + ei)%Q, (tol9 * (Qabs gi + Qabs ei))%Q)))
+      (combine (combine g (q_noise r)) (q_col r)).
+Definition top_set (rows : list (bool * (Q * Q))) : bool :=
+  forallb (fun '(ci, (li, si)) =>
+     negb ci || forallb (fun '(cj, (lj, sj)) => cj || Qle_bool lj (li + si + sj)) rows) rows.
+Definition cc_ok (g : list Q) (r : qrep) : bool :=
+  Nat.eqb (length (q_col r)) (length g) && Nat.eqb (length (q_noise r)) (length g)
+  && top_set (liab_rows g r).
+
+(* no two replicates received the same noise vector *)
+Fixpoint distinct_noise (l : list qrep) : bool :=
+  match l with
+  | [] => true
+  | a :: r => forallb (fun b => negb (ql_eqb (q_noise a) (q_noise b))) r && distinct_noise r
+  end.
+
+Definition holds_qreps (cc : bool) (g : list Q) (reps : list qrep) : bool :=
+  (negb (forallb q_noisy reps) || distinct_noise reps)
+  && if cc then forallb (cc_ok g) reps
+     else match reps with [] => true | r0 :: rest => forallb (same_component r0) rest end.
+
+Definition holds_replicates (c : repcase) : bool :=
+  match rc_reps c with
+  | Err _ => true
+  | Ok reps => holds_qreps (rc_cc c) (map f2q0 (rc_g c)) (map to_q reps)
+  end.
+
+(* the model's bit-exact versions: column = fl(g + noise of this replicate) *)
+Definition exact_rows (g : list float) (r : rrep) : list (bool * (Q * Q)) :=
+  map (fun '((gi, ei), ci) => (is_one ci, (f2q0 (PrimFloat.add gi ei), 0%Q)))
+      (combine (combine g (rr_noise r)) (rr_col r)).
+Definition cc_exact (g : list float) (r : rrep) : bool :=
+  Nat.eqb (length (rr_col r)) (length g) && Nat.eqb (length (rr_noise r)) (length g)
+  && forallb (fun x => is_one x || PrimFloat.eqb x 0%float) (rr_col r)
+  && top_set (exact_rows g r).
+
+(* the model: R calls of run() on one simulator = run_reps; the draws are the consecutive
+   draws of the one generator (nothing else is drawn), every request is the same, and
+   column k = pheno g (draw k) with pheno = float addition (then a top-set threshold) *)
+Definition model_columns (c : repcase) : list (list float) :=
+  match rc_reps c with
+  | Err _ => []
+  | Ok reps =>
+      sim_cols _ _ (run_reps (list (list float)) (list float) unit (list float) (list float)
+                      (fun _ s => match s with [] => ([], []) | d :: r => (d, r) end)
+                      (fun g e => map (fun '(gi, ei) => PrimFloat.add gi ei) (combine g e))
+                      (rc_g c) tt (length reps) (mksim _ _ (map rr_ref reps) []))
+  end.
+
+Definition agree_replicates (c : repcase) : bool :=
+  match rc_reps c with
+  | Err _ => false
+  | Ok reps =>
+      (lenZ reps =? rc_R c) && rc_end_same c
+      && forallb (fun r => fl_eqb (rr_noise r) (rr_ref r)) reps
+      && match reps with [] => true | r0 :: rest => forallb (fun r => fsame (rr_scale r) (rr_scale r0)) rest end
+      && (if rc_cc c then forallb (cc_exact (rc_g c)) reps
+          else list_eqb fl_eqb (model_columns c) (map rr_col reps))
+  end.
+
+Definition check_replicates (c : repcase) : bool * bool := (agree_replicates c, holds_replicates c).
+Definition model_replicates (c : repcase) := if rc_cc c then [] else model_columns c.
